@@ -10,7 +10,7 @@ def is_signal_decl(d):
     return d.get("grid", "") in ("control", "control+", "bspline")
 
 
-def stage_probes(B, sname, prefix=None, dc=False, extra_grids=()):
+def stage_probes(B, sname, prefix=None, dc=False, intg=False):
     """dict label -> MX for one stage: node times, T, t0, every declared symbol on the control grid."""
     st = B.stages[sname]
     pre = (prefix if prefix is not None else sname) + "|"
@@ -29,6 +29,12 @@ def stage_probes(B, sname, prefix=None, dc=False, extra_grids=()):
             P[pre + "sig:" + name] = st.sample(ca.vec(sym), grid="control")[1]
         else:
             P[pre + "glob:" + name] = st.value(ca.vec(sym))
+    if intg and not dc:
+        ti, _ = st.sample(st.t, grid="integrator")
+        P[pre + "ti"] = ti
+        for name, d in B.decl.items():
+            if d["stage"] == sname and d["kind"] == "state":
+                P[pre + "intg:" + name] = st.sample(ca.vec(B.syms[name]), grid="integrator")[1]
     if dc:
         ti, _ = st.sample(st.t, grid="integrator")
         tr, _ = st.sample(st.t, grid="integrator_roots")
